@@ -1,5 +1,7 @@
 import Generated.LeafFns
 import Econf.Lemmas.MiniCLemmas
+import Econf.KeyFileOps
+import Econf.Writer
 
 /-!
   # The string helpers of lib/, as translated from the C source on this run
@@ -354,5 +356,423 @@ theorem toLowerCase_exec (m : Mem) (b : Nat) (s : List UInt8) (h : MemBytes m b 
     have hz : sch 0 = 0 := by decide
     refine ⟨{ mem := stm, loc := [.ptr b (s.length : Nat), .ptr b k] }, ?_, by simp [hkn], hmem, hlen, hoth⟩
     simp [testOf, evalE, evalL, readPlace, bind, Except.bind, hkn, hld, hz, truth, Except.map]
+
+/-- cells of the block while `stripbrackets` copies: the first `i` bytes behind the bracket have been moved one place down -/
+def shifted (s : List UInt8) (i : Nat) : List UInt8 := (s.drop 1).take i ++ (s ++ [0]).drop i
+
+theorem shifted_zero (s : List UInt8) : shifted s 0 = s ++ [0] := by simp [shifted]
+
+theorem shifted_length (s : List UInt8) (i : Nat) (hi : i + 1 ≤ s.length) : (shifted s i).length = s.length + 1 := by
+  simp [shifted]; omega
+
+theorem shifted_get_ge (s : List UInt8) (i j : Nat) (hi : i + 1 ≤ s.length) (hij : i ≤ j) (hj : j < s.length + 1) :
+    (shifted s i)[j]'(by rw [shifted_length s i hi]; exact hj) = (s ++ [0])[j]'(by simpa using hj) := by
+  have hlen : ((s.drop 1).take i).length = i := by simp; omega
+  simp only [shifted]
+  rw [List.getElem_append_right (by omega)]
+  simp only [hlen, List.getElem_drop]
+  congr 1; omega
+
+theorem shifted_set (s : List UInt8) (i : Nat) (hi : i + 1 < s.length) :
+    (shifted s i).set i (s[i + 1]) = shifted s (i + 1) := by
+  have hlen : ((s.drop 1).take i).length = i := by simp; omega
+  have h1 : (s.drop 1).take (i + 1) = (s.drop 1).take i ++ [s[i + 1]] := by
+    rw [List.take_succ_eq_append_getElem (by simp; omega)]
+    simp [Nat.add_comm]
+  have h2 : (s ++ [0]).drop i = (s ++ [0])[i]'(by simp; omega) :: (s ++ [0]).drop (i + 1) := by
+    rw [List.drop_eq_getElem_cons]
+  simp only [shifted]
+  rw [List.set_append_right _ _ (by omega), hlen, Nat.sub_self, h2, List.set_cons_zero, h1]
+  simp
+
+
+/-- what `stripbrackets` leaves: the text between a leading `[` and the first `]`, if the string also ends with `]` -/
+def stripSpec (s : List UInt8) : List UInt8 :=
+  if s.head? = some 91 ∧ s.getLast? = some 93 then (s.drop 1).takeWhile (· != 93) else s
+
+theorem wrapTo_u64_small (n : Int) (h0 : 0 ≤ n) (h1 : n < 18446744073709551616) : wrapTo .u64 n = n := by
+  simp only [wrapTo, Ty.bits, Ty.signed, show (Ty.u64 == Ty.bool) = false from rfl, Bool.false_eq_true, if_false, Bool.false_and]
+  have hp : ((2 : Int) ^ 64) = 18446744073709551616 := by decide
+  rw [hp]; exact Int.emod_eq_of_lt h0 h1
+
+theorem wrapTo_u64_range (n : Int) : 0 ≤ wrapTo .u64 n ∧ wrapTo .u64 n < 18446744073709551616 := by
+  simp only [wrapTo, Ty.bits, Ty.signed, show (Ty.u64 == Ty.bool) = false from rfl, Bool.false_eq_true, if_false, Bool.false_and]
+  have hp : ((2 : Int) ^ 64) = 18446744073709551616 := by decide
+  rw [hp]
+  exact ⟨Int.emod_nonneg n (by decide), Int.emod_lt_of_pos n (by decide)⟩
+
+theorem wrapTo_u64_idem (n : Int) : wrapTo .u64 (wrapTo .u64 n) = wrapTo .u64 n :=
+  wrapTo_u64_small _ (wrapTo_u64_range n).1 (wrapTo_u64_range n).2
+
+theorem sch_inj (a c : UInt8) (h : sch a = sch c) : a = c := by
+  have := congrArg byteOf h
+  simpa [byteOf, byte_of_sch] using this
+
+theorem stripbrackets_exec (m : Mem) (b : Nat) (s : List UInt8) (h : MemBytes m b (s ++ [0])) (hs : (0 : UInt8) ∉ s)
+    (hsmall : (s.length : Int) < 18446744073709551616) (fuel : Nat) (hf : s.length < fuel) :
+    ∃ m' loc', exec fuel LeafFns.stripbrackets.body { mem := m, loc := [.ptr b 0, .undef, .undef, .undef] } =
+        .ret (.ptr b 0) { mem := m', loc := loc' } ∧
+      m'.cstr b 0 = .ok (stripSpec s) ∧ m'.length = m.length ∧ ∀ b', b' ≠ b → m'[b']? = m[b']? := by
+  have hstr := h.cstr hs 0 (Nat.zero_le _)
+  simp only [Int.natCast_zero, List.drop_zero] at hstr
+  have hl0 := h.load8 0 (by simp)
+  simp only [Int.natCast_zero] at hl0
+  obtain ⟨blk, h1, h2, hw, h3⟩ := h.blk
+  have hlen : blk.cells.length = s.length + 1 := by rw [h3]; simp
+  -- the statements in front of the test
+  have hpre : ∀ rest : Stmt, exec fuel
+      (.seq (.ite (.un .lnot (.load (.var 0) .ptr) .i32) (.ret (some .null)) .skip)
+        (.seq (.expr (.assign (.var 1) (.load (.var 0) .ptr) .ptr))
+          (.seq (.expr (.assign (.var 2) (.load (.var 0) .ptr) .ptr))
+            (.seq (.expr (.assign (.var 3) (.bin .sub (.call "strlen" (.cons (.load (.var 0) .ptr) .nil)) (.cast .u64 (.lit 1 .i32)) .u64) .u64))
+              rest))))
+      { mem := m, loc := [.ptr b 0, .undef, .undef, .undef] } =
+      exec fuel rest { mem := m, loc := [.ptr b 0, .ptr b 0, .ptr b 0, .int (wrapTo .u64 ((s.length : Int) - 1))] } := by
+    intro rest
+    simp [exec, testOf, evalE, evalL, evalArgs, readPlace, writePlace, builtin, hstr, bind, Except.bind, binop, cmpInt, unop, convert,
+      truth, boolVal, arith, Ty.signed, Except.map, wrapTo_u64_small 1 (by decide) (by decide), wrapTo_u64_idem]
+  simp only [LeafFns.stripbrackets]
+  rw [hpre]
+  -- does the string start with '[' and end with ']'?
+  have hcond_iff : (s.head? = some 91 ∧ s.getLast? = some 93) ↔ (s[0]? = some 91 ∧ s[s.length - 1]? = some 93) := by
+    rw [List.head?_eq_getElem?, List.getLast?_eq_getElem?]
+  have e1 : wrapTo .u64 ((s.length : Int) - 1) = ((s.length - 1 : Nat) : Int) ∨ s.length = 0 := by
+    by_cases h0 : s.length = 0
+    · exact Or.inr h0
+    · left; rw [wrapTo_u64_small _ (by omega) (by omega)]; omega
+  -- value of the test
+  have htest : testOf (some (.land (.bin .eq (.cast .i32 (.load (.deref (.load (.var 0) .ptr)) .i8)) (.lit 91 .i32) .i32)
+      (.bin .eq (.cast .i32 (.load (.deref (.bin .add (.load (.var 0) .ptr) (.load (.var 3) .u64) .ptr)) .i8)) (.lit 93 .i32) .i32)))
+      { mem := m, loc := [.ptr b 0, .ptr b 0, .ptr b 0, .int (wrapTo .u64 ((s.length : Int) - 1))] } =
+      .ok (decide (s.head? = some 91 ∧ s.getLast? = some 93), { mem := m, loc := [.ptr b 0, .ptr b 0, .ptr b 0, .int (wrapTo .u64 ((s.length : Int) - 1))] }) := by
+    have hdec : decide (s.head? = some 91 ∧ s.getLast? = some 93) = decide (s[0]? = some 91 ∧ s[s.length - 1]? = some 93) :=
+      decide_eq_decide.2 hcond_iff
+    rw [hdec]
+    have h91' : sch 91 = 91 := by rw [sch_eq]; decide
+    have w91 : wrapTo .i32 91 = 91 := wrapTo_i32 _ (by decide) (by decide)
+    have w93 : wrapTo .i32 93 = 93 := wrapTo_i32 _ (by decide) (by decide)
+    by_cases hp : 0 < s.length
+    · have hb0 : (s ++ [0])[0]'(by simp) = s[0]'hp := by rw [List.getElem_append_left hp]
+      rw [hb0] at hl0
+      by_cases hc : s[0]'hp = 91
+      · have hL : s.length - 1 < (s ++ [0]).length := by simp; omega
+        have hld := h.load8 (s.length - 1) hL
+        rw [List.getElem_append_left (by omega)] at hld
+        have e : wrapTo .u64 ((s.length : Int) - 1) = ((s.length - 1 : Nat) : Int) := by
+          rcases e1 with e | e
+          · exact e
+          · omega
+        have h0 : (0 : Int) ≤ ((s.length - 1 : Nat) : Int) := by omega
+        have hle : ((s.length - 1 : Nat) : Int) ≤ (blk.cells.length : Int) := by rw [hlen]; omega
+        by_cases hlast : s[s.length - 1] = 93
+        · have h93' : sch 93 = 93 := by rw [sch_eq]; decide
+          have : (s[0]? = some 91 ∧ s[s.length - 1]? = some 93) := by
+            rw [List.getElem?_eq_getElem hp, List.getElem?_eq_getElem (by omega), hc, hlast]; exact ⟨rfl, rfl⟩
+          rw [hc] at hl0; rw [hlast] at hld
+          simp [testOf, evalE, evalL, readPlace, bind, Except.bind, hl0, Except.map, convert, wrapTo_i32_sch, binop, cmpInt, boolVal, truth,
+            h91', h93', w91, w93, e, ptrAdd, Mem.block, h1, h2, h0, hle, hld, this]
+        · have hne : sch (s[s.length - 1]) ≠ 93 := fun hh => hlast (sch_inj _ 93 (by rw [hh, sch_eq]; decide))
+          have : ¬ (s[0]? = some 91 ∧ s[s.length - 1]? = some 93) := by
+            rw [List.getElem?_eq_getElem (show s.length - 1 < s.length by omega)]
+            rintro ⟨_, h'⟩
+            exact hlast (Option.some.inj h')
+          rw [hc] at hl0
+          simp [testOf, evalE, evalL, readPlace, bind, Except.bind, hl0, Except.map, convert, wrapTo_i32_sch, binop, cmpInt, boolVal, truth,
+            h91', w91, e, ptrAdd, Mem.block, h1, h2, h0, hle, hld, hne, this]
+      · have hne : sch s[0] ≠ 91 := fun hh => hc (sch_inj _ 91 (by rw [hh, sch_eq]; decide))
+        have : ¬ (s[0]? = some 91 ∧ s[s.length - 1]? = some 93) := by
+          rw [List.getElem?_eq_getElem hp]
+          rintro ⟨h', _⟩
+          exact hc (Option.some.inj h')
+        simp [testOf, evalE, evalL, readPlace, bind, Except.bind, hl0, Except.map, convert, wrapTo_i32_sch, binop, cmpInt, boolVal, truth, hne, this]
+    · have hnil : s = [] := List.eq_nil_of_length_eq_zero (by omega)
+      subst hnil
+      have h91 : sch 0 ≠ 91 := by rw [sch_eq]; decide
+      simp [testOf, evalE, evalL, readPlace, bind, Except.bind, hl0, Except.map, convert, wrapTo_i32_sch, binop, cmpInt, boolVal, truth, h91]
+  by_cases hcond : s.head? = some 91 ∧ s.getLast? = some 93
+  · -- yes: the bytes behind the bracket are moved down until the first ']' is met, then the string is terminated
+    have hc2 := hcond_iff.1 hcond
+    have hp : 0 < s.length := by
+      rcases Nat.eq_zero_or_pos s.length with h0 | h0
+      · rw [List.getElem?_eq_none (by omega)] at hc2; exact absurd hc2.1 (by simp)
+      · exact h0
+    have hfirst : s[0] = 91 := by
+      have := hc2.1; rw [List.getElem?_eq_getElem hp] at this; exact Option.some.inj this
+    have hlast : s[s.length - 1] = 93 := by
+      have := hc2.2; rw [List.getElem?_eq_getElem (by omega)] at this; exact Option.some.inj this
+    have hL2 : 2 ≤ s.length := by
+      rcases Nat.lt_or_ge s.length 2 with h1' | h1'
+      · have : s.length - 1 = 0 := by omega
+        simp only [this] at hlast
+        rw [hfirst] at hlast; exact absurd hlast (by decide)
+      · exact h1'
+    -- q: number of bytes between the bracket and the first ']'
+    generalize hq : span (fun c => c != 93) (s.drop 1) = q
+    have hqle := span_le (fun c => c != 93) (s.drop 1)
+    rw [hq] at hqle
+    simp only [List.length_drop] at hqle
+    have hqlt : q < s.length - 1 := by
+      rcases Nat.lt_or_ge q (s.length - 1) with h' | h'
+      · exact h'
+      · exfalso
+        have heq : span (fun c => c != 93) (s.drop 1) = (s.drop 1).length := by simp only [List.length_drop]; omega
+        have hall := span_eq_length _ _ heq (s[s.length - 1]) (by
+          have : s[s.length - 1] = (s.drop 1)[s.length - 2]'(by simp; omega) := by
+            simp only [List.getElem_drop]; congr 1; omega
+          rw [this]; exact List.getElem_mem _)
+        rw [hlast] at hall; exact absurd hall (by decide)
+    have hstopq : (s.drop 1)[q]'(by simp; omega) = 93 := by
+      have := span_stop (fun c => c != 93) (s.drop 1) (by rw [hq]; simp; omega)
+      simp only [hq] at this
+      simpa using this
+    have e : wrapTo .u64 ((s.length : Int) - 1) = ((s.length - 1 : Nat) : Int) := by
+      rw [wrapTo_u64_small _ (by omega) (by omega)]; omega
+    rw [e] at htest ⊢
+    have hloop := loop_inv
+      (testOf (some (.bin .ne (.cast .i32 (.load (.deref (.incdec (.var 0) true false .ptr)) .i8)) (.lit 93 .i32) .i32)))
+      (exec fuel (.expr (.assign (.deref (.incdec (.var 2) true true .ptr)) (.load (.deref (.load (.var 0) .ptr)) .i8) .i8))) (stepOf none)
+      (fun R => R.loc = [.ptr b (q + 1 : Nat), .ptr b 0, .ptr b (q : Nat), .int ((s.length - 1 : Nat) : Int)] ∧ MemBytes R.mem b (shifted s q) ∧
+        R.mem.length = m.length ∧ ∀ b', b' ≠ b → R.mem[b']? = m[b']?)
+      q
+      (fun i st => st.loc = [.ptr b (i : Nat), .ptr b 0, .ptr b (i : Nat), .int ((s.length - 1 : Nat) : Int)] ∧ MemBytes st.mem b (shifted s i) ∧
+        st.mem.length = m.length ∧ ∀ b', b' ≠ b → st.mem[b']? = m[b']?)
+      ?_ ?_ { mem := m, loc := [.ptr b 0, .ptr b 0, .ptr b 0, .int ((s.length - 1 : Nat) : Int)] } fuel
+      ⟨by simp, by rw [shifted_zero]; exact h, rfl, fun _ _ => rfl⟩ (by omega)
+    · obtain ⟨R, hl, hloc, hmR, hlenR, hothR⟩ := hloop
+      obtain ⟨Rm, Rl⟩ := R
+      simp only at hloc hmR hlenR hothR
+      subst hloc
+      rw [← exec_while] at hl
+      -- the terminator
+      have hqlen : q < (shifted s q).length := by rw [shifted_length s q (by omega)]; omega
+      obtain ⟨m', hst, hm', hlen', hoth'⟩ := hmR.store8 q hqlen 0
+      have hz : sch 0 = 0 := by rw [sch_eq]; decide
+      rw [hz] at hst
+      obtain ⟨blkR, r1, r2, _, r3⟩ := hmR.blk
+      refine ⟨m', [.ptr b (q + 1 : Nat), .ptr b 0, .ptr b (q : Nat), .int ((s.length - 1 : Nat) : Int)], ?_, ?_, hlen'.trans hlenR,
+        fun b' hb' => by rw [hoth' b' hb', hothR b' hb']⟩
+      · have ht := htest
+        simp only [hcond, and_self, decide_true] at ht
+        have hfin : exec fuel (.expr (.assign (.deref (.load (.var 2) .ptr)) (.cast .i8 (.lit 0 .i32)) .i8))
+            { mem := Rm, loc := [.ptr b (q + 1 : Nat), .ptr b 0, .ptr b (q : Nat), .int ((s.length - 1 : Nat) : Int)] } =
+            .normal { mem := m', loc := [.ptr b (q + 1 : Nat), .ptr b 0, .ptr b (q : Nat), .int ((s.length - 1 : Nat) : Int)] } := by
+          simp [exec, evalE, evalL, readPlace, writePlace, convert, bind, Except.bind, Except.map, hst, wrapTo, Ty.bits, Ty.signed]
+        rw [exec_seq_normal (by rw [exec_ite_true ht, exec_seq_normal hl, hfin])]
+        simp [exec, evalE, evalL, readPlace, bind, Except.bind]
+      · -- the string that is left
+        have hsplit : (shifted s q).set q 0 = (s.drop 1).take q ++ 0 :: (s ++ [0]).drop (q + 1) := by
+          have hlen0 : ((s.drop 1).take q).length = q := by simp; omega
+          have h2 : (s ++ [0]).drop q = (s ++ [0])[q]'(by simp; omega) :: (s ++ [0]).drop (q + 1) := by
+            rw [List.drop_eq_getElem_cons]
+          simp only [shifted]
+          rw [List.set_append_right _ _ (by omega), hlen0, Nat.sub_self, h2, List.set_cons_zero]
+        rw [hsplit] at hm'
+        have hnz : (0 : UInt8) ∉ (s.drop 1).take q := fun hm0 => hs (List.mem_of_mem_drop (List.mem_of_mem_take hm0))
+        rw [hm'.cstr0 hnz]
+        have : stripSpec s = (s.drop 1).take q := by
+          simp only [stripSpec, hcond, and_self, if_true]
+          rw [← hq, span]
+          exact List.prefix_iff_eq_take.1 (List.takeWhile_prefix _)
+        rw [this]
+    · -- one round
+      intro i st hi ⟨hloc, hmem, hlenst, hothst⟩
+      obtain ⟨stm, stl⟩ := st
+      simp only at hloc hmem hlenst hothst
+      subst hloc
+      have hi1 : i + 1 < s.length := by omega
+      have hslen := shifted_length s i (by omega)
+      obtain ⟨blki, i1, i2, _, i3⟩ := hmem.blk
+      have hcl : blki.cells.length = s.length + 1 := by rw [i3]; simp [hslen]
+      have hget : (shifted s i)[i + 1]'(by rw [hslen]; omega) = s[i + 1] := by
+        rw [shifted_get_ge s i (i + 1) (by omega) (by omega) (by omega), List.getElem_append_left hi1]
+      have hld := hmem.load8 (i + 1) (by rw [hslen]; omega)
+      rw [hget] at hld
+      have hne93 : s[i + 1] ≠ 93 := by
+        obtain ⟨h', hp'⟩ := span_lt (fun c => c != 93) (s.drop 1) i (by rw [hq]; exact hi)
+        simp only [List.getElem_drop] at hp'
+        have : s[1 + i]'(by omega) = s[i + 1] := by congr 1; omega
+        rw [this] at hp'
+        simpa using hp'
+      have hsne : sch s[i + 1] ≠ 93 := fun hh => hne93 (sch_inj _ 93 (by rw [hh, sch_eq]; decide))
+      obtain ⟨m2, hst2, hm2, hlen2, hoth2⟩ := hmem.store8 i (by rw [hslen]; omega) (s[i + 1])
+      rw [shifted_set s i hi1] at hm2
+      have h0 : (0 : Int) ≤ (i : Int) + 1 := by omega
+      have hle : (i : Int) + 1 ≤ (blki.cells.length : Int) := by rw [hcl]; omega
+      simp only [Int.natCast_add, Int.natCast_one] at hld
+      refine ⟨{ mem := stm, loc := [.ptr b (i + 1 : Nat), .ptr b 0, .ptr b (i : Nat), .int ((s.length - 1 : Nat) : Int)] },
+        { mem := m2, loc := [.ptr b (i + 1 : Nat), .ptr b 0, .ptr b (i + 1 : Nat), .int ((s.length - 1 : Nat) : Int)] },
+        { mem := m2, loc := [.ptr b (i + 1 : Nat), .ptr b 0, .ptr b (i + 1 : Nat), .int ((s.length - 1 : Nat) : Int)] },
+        ?_, Or.inl ?_, by simp [stepOf], rfl, hm2, hlen2.trans hlenst, fun b' hb' => by rw [hoth2 b' hb', hothst b' hb']⟩
+      · simp [testOf, evalE, evalL, readPlace, writePlace, bind, Except.bind, binop, ptrAdd, Mem.block, i1, i2, cmpInt, h0, hle,
+          hld, convert, wrapTo_i32_sch, hsne, boolVal, truth, Except.map]
+      · simp [exec, evalE, evalL, readPlace, writePlace, bind, Except.bind, binop, ptrAdd, Mem.block, i1, i2, cmpInt, h0, hle,
+          hld, convert, wrapTo_i8_sch, hst2, Except.map, Ty.bits]
+    · -- the end: the next byte is the first ']'
+      intro st ⟨hloc, hmem, hlenst, hothst⟩
+      obtain ⟨stm, stl⟩ := st
+      simp only at hloc hmem hlenst hothst
+      subst hloc
+      have hslen := shifted_length s q (by omega)
+      obtain ⟨blki, i1, i2, _, i3⟩ := hmem.blk
+      have hcl : blki.cells.length = s.length + 1 := by rw [i3]; simp [hslen]
+      have hget : (shifted s q)[q + 1]'(by rw [hslen]; omega) = 93 := by
+        rw [shifted_get_ge s q (q + 1) (by omega) (by omega) (by omega), List.getElem_append_left (by omega)]
+        have : s[q + 1]'(by omega) = (s.drop 1)[q]'(by simp; omega) := by
+          simp only [List.getElem_drop]; congr 1; omega
+        rw [this, hstopq]
+      have hld := hmem.load8 (q + 1) (by rw [hslen]; omega)
+      rw [hget] at hld
+      have h93' : sch 93 = 93 := by rw [sch_eq]; decide
+      have w93 : wrapTo .i32 93 = 93 := wrapTo_i32 _ (by decide) (by decide)
+      have h0 : (0 : Int) ≤ (q : Int) + 1 := by omega
+      have hle : (q : Int) + 1 ≤ (blki.cells.length : Int) := by rw [hcl]; omega
+      simp only [Int.natCast_add, Int.natCast_one] at hld
+      refine ⟨{ mem := stm, loc := [.ptr b (q + 1 : Nat), .ptr b 0, .ptr b (q : Nat), .int ((s.length - 1 : Nat) : Int)] }, ?_, rfl, hmem, hlenst, hothst⟩
+      simp [testOf, evalE, evalL, readPlace, writePlace, bind, Except.bind, binop, ptrAdd, Mem.block, i1, i2, cmpInt, h0, hle,
+        hld, convert, h93', w93, boolVal, truth, Except.map]
+  · -- no: nothing is written
+    refine ⟨m, [.ptr b 0, .ptr b 0, .ptr b 0, .int (wrapTo .u64 ((s.length : Int) - 1))], ?_, ?_, rfl, fun _ _ => rfl⟩
+    · simp [exec, htest, hcond, evalE, evalL, readPlace, bind, Except.bind]
+    · rw [show stripSpec s = s by simp [stripSpec, hcond]]
+      exact hstr
+
+/-! ## the specifications are the functions of the list-level model -/
+
+theorem spc_eq (c : UInt8) : spc c = Econf.isSpace c := by
+  have h : ∀ n : Fin 256, spc (UInt8.ofNat n.val) = Econf.isSpace (UInt8.ofNat n.val) := by decide +kernel
+  have := h ⟨c.toNat, c.toNat_lt⟩
+  simpa using this
+theorem lw_eq (c : UInt8) : lw c = Econf.toLower c := by
+  have h : ∀ n : Fin 256, lw (UInt8.ofNat n.val) = Econf.toLower (UInt8.ofNat n.val) := by decide +kernel
+  have := h ⟨c.toNat, c.toNat_lt⟩
+  simpa using this
+
+theorem stripSpec_eq (s : List UInt8) : stripSpec s = Econf.stripBrackets s := by
+  cases s with
+  | nil => simp [stripSpec, Econf.stripBrackets]
+  | cons c cs =>
+    simp only [stripSpec, Econf.stripBrackets, List.head?_cons, Option.some.injEq, List.drop_succ_cons, List.drop_zero,
+      Econf.LBR, Econf.RBR, Bool.and_eq_true, beq_iff_eq]
+
+theorem dropWhile_eq_drop_span (p : UInt8 → Bool) : ∀ l : List UInt8, l.dropWhile p = l.drop (span p l)
+  | [] => by simp [span]
+  | a :: l => by
+    by_cases h : p a = true
+    · simp [span, List.dropWhile_cons, List.takeWhile_cons, h]
+      simpa [span] using dropWhile_eq_drop_span p l
+    · simp [span, List.dropWhile_cons, List.takeWhile_cons, h]
+
+theorem dropLastWhile_eq_take (p : UInt8 → Bool) (l : List UInt8) :
+    Econf.dropLastWhile p l = l.take (l.length - span p l.reverse) := by
+  simp only [Econf.dropLastWhile, dropWhile_eq_drop_span]
+  rw [List.drop_reverse]
+  simp
+
+/-- the list-level model's `trim` is what the translated `trim` leaves -/
+theorem trim_eq (s : List UInt8) :
+    Econf.trim s = (s.drop (span spc s)).take (s.length - span spc s - span spc (s.drop (span spc s)).reverse) := by
+  have hf : Econf.isSpace = spc := funext (fun c => (spc_eq c).symm)
+  simp only [Econf.trim, hf, dropWhile_eq_drop_span, dropLastWhile_eq_take, List.length_drop]
+
+theorem lowered_closed (cells : List UInt8) : ∀ i, i ≤ cells.length →
+    lowered cells 0 i = (cells.take i).map lw ++ cells.drop i
+  | 0, _ => by simp [lowered]
+  | i + 1, hi => by
+    have ih := lowered_closed cells i (by omega)
+    have hlen : ((cells.take i).map lw).length = i := by simp; omega
+    have h2 : cells.drop i = cells[i] :: cells.drop (i + 1) := by rw [List.drop_eq_getElem_cons]
+    have h1 : cells.take (i + 1) = cells.take i ++ [cells[i]] := by rw [List.take_succ_eq_append_getElem]
+    simp only [lowered, Nat.zero_add, ih]
+    rw [List.set_append_right _ _ (by omega), hlen, Nat.sub_self, h2, List.set_cons_zero, h1]
+    have : cells.getD i 0 = cells[i] := by simp [List.getD_eq_getElem?_getD, List.getElem?_eq_getElem (show i < cells.length by omega)]
+    rw [this]
+    simp only [List.map_take, List.map_append, List.map_cons, List.map_nil, List.append_assoc, List.singleton_append]
+
+theorem lowered_string (s : List UInt8) : lowered (s ++ [0]) 0 s.length = Econf.lower s ++ [0] := by
+  rw [lowered_closed _ _ (by simp)]
+  have hf : lw = Econf.toLower := funext lw_eq
+  simp [Econf.lower, hf]
+
+/-! ## what the callers get, in terms of the list-level model -/
+
+theorem set_split (s : List UInt8) (j : Nat) (hj : j ≤ s.length) :
+    (s ++ [0]).set j 0 = s.take j ++ 0 :: (s ++ [0]).drop (j + 1) := by
+  have h1 : (s ++ [0]) = s.take j ++ (s ++ [0]).drop j := by
+    have := List.take_append_drop j (s ++ [0])
+    rw [List.take_append_of_le_length hj] at this
+    exact this.symm
+  have hlen : (s.take j).length = j := by simp; omega
+  have h2 : (s ++ [0]).drop j = (s ++ [0])[j]'(by simp; omega) :: (s ++ [0]).drop (j + 1) := by rw [List.drop_eq_getElem_cons]
+  conv => lhs; rw [h1]
+  rw [List.set_append_right _ _ (by omega), hlen, Nat.sub_self, h2, List.set_cons_zero]
+
+/-- `trim` (lib/libeconf_ext.c), for every string: no fault, the pointer returned is behind the leading blanks, and the C string
+    there is the model's `trim` of the text -/
+theorem C_trim (m : Mem) (b : Nat) (s : List UInt8) (h : MemBytes m b (s ++ [0])) (hs : (0 : UInt8) ∉ s)
+    (fuel : Nat) (hf : s.length < fuel) :
+    ∃ m' loc', exec fuel LeafFns.trim.body { mem := m, loc := [.ptr b 0, .undef, .undef] } =
+        .ret (.ptr b ((s.takeWhile Econf.isSpace).length : Nat)) { mem := m', loc := loc' } ∧
+      m'.cstr b ((s.takeWhile Econf.isSpace).length : Nat) = .ok (Econf.trim s) ∧
+      m'.length = m.length ∧ ∀ b', b' ≠ b → m'[b']? = m[b']? := by
+  obtain ⟨m', loc', hr, hm', hlen', hoth⟩ := trim_exec m b s h hs 0 (Nat.zero_le _) fuel hf
+  have hf' : Econf.isSpace = spc := funext (fun c => (spc_eq c).symm)
+  simp only [Nat.zero_add, List.drop_zero, Int.natCast_zero] at hr hm'
+  have hls := span_le spc s
+  generalize hlsd : span spc s = ls at hr hm' hls
+  have hrs := span_le spc (s.drop ls).reverse
+  simp only [List.length_reverse, List.length_drop] at hrs
+  generalize hrsd : span spc (s.drop ls).reverse = rs at hm' hrs
+  have hls' : (s.takeWhile spc).length = ls := hlsd
+  refine ⟨m', loc', ?_, ?_, hlen', hoth⟩
+  · rw [hf', hls']; exact hr
+  · have hj : s.length - rs ≤ s.length := by omega
+    rw [set_split s _ hj] at hm'
+    have hsplit : s.take (s.length - rs) = s.take ls ++ (s.drop ls).take (s.length - ls - rs) := by
+      have : s.length - rs = ls + (s.length - ls - rs) := by omega
+      rw [this, List.take_add]
+    rw [hsplit] at hm'
+    have hnz : (0 : UInt8) ∉ (s.drop ls).take (s.length - ls - rs) := fun hm0 => hs (List.mem_of_mem_drop (List.mem_of_mem_take hm0))
+    have := hm'.cstr_at hnz
+    have hl : (s.take ls).length = ls := by simp; omega
+    rw [hl] at this
+    rw [hf', trim_eq, hlsd, hrsd, hls']
+    exact this
+
+/-- `toLowerCase` (lib/helpers.c): no fault, and the string is the model's `lower` of the text -/
+theorem C_toLowerCase (m : Mem) (b : Nat) (s : List UInt8) (h : MemBytes m b (s ++ [0])) (hs : (0 : UInt8) ∉ s)
+    (fuel : Nat) (hf : s.length < fuel) :
+    ∃ m' loc', exec fuel LeafFns.toLowerCase.body { mem := m, loc := [.ptr b 0, .undef] } = .ret (.ptr b 0) { mem := m', loc := loc' } ∧
+      m'.cstr b 0 = .ok (Econf.lower s) ∧ m'.length = m.length ∧ ∀ b', b' ≠ b → m'[b']? = m[b']? := by
+  obtain ⟨m', loc', hr, hm', hlen', hoth⟩ := toLowerCase_exec m b s h hs 0 (Nat.zero_le _) fuel hf
+  simp only [Nat.sub_zero, Int.natCast_zero] at hr hm'
+  rw [lowered_string] at hm'
+  refine ⟨m', loc', hr, ?_, hlen', hoth⟩
+  have hnz : (0 : UInt8) ∉ Econf.lower s := by
+    intro hm0
+    obtain ⟨c, hc, hc0⟩ := List.mem_map.1 hm0
+    have hcne : c ≠ 0 := fun h0 => hs (h0 ▸ hc)
+    have h : ∀ n : Fin 256, Econf.toLower (UInt8.ofNat n.val) = 0 → UInt8.ofNat n.val = (0 : UInt8) := by decide +kernel
+    have := h ⟨c.toNat, c.toNat_lt⟩ (by simpa using hc0)
+    exact hcne (by simpa using this)
+  have hm2 : MemBytes m' b (Econf.lower s ++ 0 :: []) := hm'
+  exact hm2.cstr0 hnz
+
+/-- `stripbrackets` (lib/helpers.c): no fault, and the string is the model's `stripBrackets` of the text -/
+theorem C_stripbrackets (m : Mem) (b : Nat) (s : List UInt8) (h : MemBytes m b (s ++ [0])) (hs : (0 : UInt8) ∉ s)
+    (hsmall : (s.length : Int) < 18446744073709551616) (fuel : Nat) (hf : s.length < fuel) :
+    ∃ m' loc', exec fuel LeafFns.stripbrackets.body { mem := m, loc := [.ptr b 0, .undef, .undef, .undef] } =
+        .ret (.ptr b 0) { mem := m', loc := loc' } ∧
+      m'.cstr b 0 = .ok (Econf.stripBrackets s) ∧ m'.length = m.length ∧ ∀ b', b' ≠ b → m'[b']? = m[b']? := by
+  have := stripbrackets_exec m b s h hs hsmall fuel hf
+  rwa [stripSpec_eq] at this
+
+/-- `ltrim` (lib/libeconf_ext.c): no fault, memory untouched, the pointer moves over exactly the leading blanks -/
+theorem C_ltrim (m : Mem) (b : Nat) (s : List UInt8) (h : MemBytes m b (s ++ [0])) (fuel : Nat) (hf : s.length < fuel) :
+    exec fuel LeafFns.ltrim.body { mem := m, loc := [.ptr b 0] } =
+      .ret (.ptr b ((s.takeWhile Econf.isSpace).length : Nat)) { mem := m, loc := [.ptr b ((s.takeWhile Econf.isSpace).length : Nat)] } := by
+  have hf' : Econf.isSpace = spc := funext (fun c => (spc_eq c).symm)
+  have := ltrim_exec m b s h 0 (Nat.zero_le _) fuel hf
+  rw [hf']
+  simpa [span] using this
 
 end Leaf
